@@ -32,7 +32,7 @@ from hsim.worlds.udp import Arrival, UdpWorld
 
 PROPERTY = "C14"
 CHUNK = {"quick": 12, "thorough": 30}
-PROBES = ["region_tracked_again_after_teardown", "observer_notified", "avatar_child_announced", "seat_killed_under_avatar", "avatar_orphan_survives_kill_of_unknown_seat",
+PROBES = ["regionless_object_whose_region_became_tracked", "object_moved_to_untracked_region", "regionless_object_picked_up_again", "region_tracked_again_after_teardown", "observer_notified", "avatar_child_announced", "seat_killed_under_avatar", "avatar_orphan_survives_kill_of_unknown_seat",
           "orphan_adopted", "cascade_depth_2", "local_id_reuse_after_kill", "cross_region_move",
           "kill_unknown_with_orphans", "pending_both_kinds_on_killed_object", "same_object_twice_in_one_message",
           "reparent", "kill_of_parent", "teardown_with_pending", "precondition_broken", "duplicate_update_delivered",
@@ -51,6 +51,10 @@ ASSUMPTIONS = [
     "cascading kill skips them and what hangs off them; they stay tracked as orphans of the killed seat",
     "the precondition of the property is evaluated on the delivered history; runs where duplication/reordering/loss "
     "break it stop being judged from that point (counted as precondition_broken)",
+    "an update from a region that is not tracked (gone, or not there yet) naming an object that lives in a tracked region "
+    "moves it into no region at all, which the code documents as intended: such an object is out of every comparison "
+    "until a tracked region announces it again, where it must be tracked like any other; the same update naming a live "
+    "parent or a seated avatar, and ObjectProperties for a regionless object, end the judging of the run (counted)",
     "child order is not judged (only set equality, no duplicates, both directions)",
     "an update that changes nothing is not required to resolve pending requests",
 ]
@@ -128,6 +132,32 @@ def gen_plan(rng: random.Random, tier: str) -> dict:
             steps.append({"at": t, "op": "revive", "r": r})
             t = round(t + 0.1, 4)
             continue
+        if dead and rng.random() < 0.12:
+            # a straggler of a region that is gone (or an update that beats the handshake of a region coming back) names
+            # an object that meanwhile lives in the other region: the code moves it to the unknown region ("regionless",
+            # by design); when a tracked region announces it again it has to be picked up there like any other object
+            r = rng.choice(dead)
+            o = 1 - r
+            leafs = [l for l in scene[o] if not any(p == l for (_f, p) in scene[o].values()) and l not in avatars[o]]
+            if alive[o] and leafs:
+                local = rng.choice(leafs)
+                full, _p = scene[o].pop(local)
+                where.pop(full, None)
+                salt += 1
+                steps.append({"at": t, "op": "upd", "r": r, "form": rng.choice(["full", "compressed"]),
+                              "entries": [[rng.randint(1, N_LOCALS), full, 0]], "salt": salt, "fate": {}, "stale": True})
+                if rng.random() < 0.7:
+                    t = round(t + rng.choice([0.001, 0.01, 0.05]), 4)
+                    free = [l for l in range(1, N_LOCALS + 1) if l not in scene[o]]
+                    if free:
+                        nl = rng.choice(free)
+                        avatars[o].discard(nl)
+                        scene[o][nl] = (full, 0)
+                        where[full] = (o, nl)
+                        salt += 1
+                        steps.append({"at": t, "op": "upd", "r": o, "form": rng.choice(["full", "compressed"]),
+                                      "entries": [[nl, full, 0]], "salt": salt, "fate": fate()})
+                continue
         live = [r for r in (0, 1) if alive[r]]
         if not live:
             break
@@ -311,6 +341,7 @@ class SceneModel:
     def __init__(self):
         self.regions: Dict[int, Dict[int, List[int]]] = {}   # ridx -> local -> [full, parent, is_avatar]
         self.where: Dict[int, Tuple[int, int]] = {}           # full -> (ridx, local)
+        self.limbo: Dict[int, int] = {}                       # full -> untracked region it was last announced by
         self.broken: Optional[str] = None
 
     def track_region(self, r):
@@ -344,14 +375,37 @@ class SceneModel:
         """Returns [(region, local)] of objects *created* by this message."""
         created = []
         if r not in self.regions:
-            if any(e[1] in self.where for e in entries):
-                self.broken = "update from a torn-down region names a live object"
+            # an update from a region that is not tracked (gone, or not there yet). New objects are ignored; an object
+            # that lives elsewhere leaves that region and belongs to no tracked region ("regionless", which the code
+            # does on purpose): it is out of every comparison until a tracked region announces it again
+            for entry in entries:
+                full = entry[1]
+                if full in self.where:
+                    r0, l0 = self.where.pop(full)
+                    if any(p2 == l0 for (_f2, p2, _a2) in self.regions[r0].values()) or self.regions[r0][l0][2]:
+                        self.broken = "update from an untracked region names a live parent or avatar"
+                        return created
+                    del self.regions[r0][l0]
+                    self.limbo[full] = r
+                    probes("object_moved_to_untracked_region")
+                elif full in self.limbo:
+                    self.limbo[full] = r
             return created
         objs = self.regions[r]
         for entry in entries:
             local, full, parent = entry[:3]
             av = len(entry) > 3 and entry[3] == "av"
-            if full in self.where:
+            if full in self.limbo:
+                if self.limbo[full] in self.regions:
+                    probes("regionless_object_whose_region_became_tracked")
+                if local in objs:
+                    self.broken = "local id given to two live objects (move)"
+                    return created
+                del self.limbo[full]
+                objs[local] = [full, parent, av]
+                self.where[full] = (r, local)
+                probes("regionless_object_picked_up_again")
+            elif full in self.where:
                 r0, l0 = self.where[full]
                 if r0 != r:
                     probes("cross_region_move")
@@ -610,7 +664,7 @@ def run_plan(plan: dict) -> RunResult:
             """Real object managers vs the model."""
             world_lookup = {o.FullID: o for o in session.objects.all_objects}    # public view of the full-ID index
             want_fulls = {O.full_id(f) for f in model.where}
-            got_fulls = set(world_lookup.keys())
+            got_fulls = set(world_lookup.keys()) - {O.full_id(f) for f in model.limbo}
             if got_fulls != want_fulls:
                 return violate("C14/index/full-id-set", event=event,
                                missing=sorted(str(x)[-4:] for x in want_fulls - got_fulls),
@@ -724,6 +778,9 @@ def run_plan(plan: dict) -> RunResult:
                     res.probe("teardown_with_pending")
                 model.teardown(r)
                 torn_down.add(r)
+            elif kind == "props":
+                if any(f_ in model.limbo for f_ in meaning[2]):
+                    model.broken = "properties for a regionless object"
             if model.broken is not None:
                 res.probe("precondition_broken")
                 res.extra["precondition_broken:" + model.broken] = 1
@@ -774,8 +831,10 @@ def run_plan(plan: dict) -> RunResult:
                     violate("C14/futures/left-pending", why="end of run after teardown", region=f["r"],
                             local=f["local"], fkind=f["kind"])
                     break
-            if not stopped and len(session.objects):
-                violate("C14/index/objects-survive-teardown", n=len(session.objects))
+            left = [o for o in session.objects.all_objects if o.FullID not in {O.full_id(f) for f in model.limbo}]
+            if not stopped and left:
+                # (regionless objects are tied to no region and are only dropped with the session: not counted)
+                violate("C14/index/objects-survive-teardown", n=len(left))
         if not stopped and state["judging"]:
             for f in futures:
                 fu = f["fut"]
